@@ -746,6 +746,9 @@ func buildConfigEnv(vars map[string]string) []string {
 func buildConditions(cond []*conditionDef) []Condition {
 	var ret []Condition
 	for _, v := range cond {
+		if v == nil {
+			continue
+		}
 		ret = append(ret, Condition{
 			Condition: v.Condition,
 			Expected:  v.Expected,
